@@ -3,8 +3,9 @@
   2. the same executions with ONE observed field corrupted (an item value, a missing terminal, a duplicated terminal, a wrong
      is_subscribed answer) are rejected by TLC at that execution - by the L1 model (drift) and by the L2 monitor that owns the clause;
   3. a concurrent trace with a duplicated terminal callback / a callback after unsubscribe returned is rejected by ConcProps;
-  4. the lock log of the real subscriber Observer / StreamController is accepted by the lock-level design model SinkConc
-     (SinkConcTrace), and rejected when one lock operation or one callback line is removed."""
+  4. the lock logs of the real subscriber Observer / StreamController and of the real plain Subject are accepted by the lock-level
+     design models SinkConc / SubjectConc (SinkConcTrace, SubjectConcTrace), and rejected when one lock operation or one
+     callback line is removed."""
 import copy
 import json
 import os
@@ -144,6 +145,13 @@ def run():
             sd1 = conccheck.sink_drift(work, harness, 1, runs=20, corrupt=dropper(ev), tagp='sdc_' + ev.lower())
             print('selftest 4: the same logs with the first %-3s line removed: %d of %d cases rejected by SinkConcTrace' % (ev, len(sd1['drift']), sd1['cases']))
             ok &= sd1['cases'] > 0 and len(sd1['drift']) == sd1['cases']
+        sj0 = conccheck.subject_drift(work, harness, 1, runs=20)
+        print('selftest 4: lock logs of %d plain-Subject cases (%d executions, %d lines) validated against SubjectConc: %d cases rejected (must be 0)' % (sj0['cases'], sj0['traces'], sj0['lines'], len(sj0['drift'])))
+        ok &= sj0['cases'] >= 3 and not sj0['drift']
+        for ev in ('snap', 'try', 'reg', 'clear', 'cb'):
+            sj1 = conccheck.subject_drift(work, harness, 1, runs=20, corrupt=dropper(ev), tagp='sjc_' + ev)
+            print('selftest 4: the same logs with the first %-5s line removed: %d of %d cases rejected by SubjectConcTrace' % (ev, len(sj1['drift']), sj1['cases']))
+            ok &= sj1['cases'] > 0 and len(sj1['drift']) == sj1['cases']
         print('SELFTEST ' + ('ok' if ok else 'FAILED'))
         return 0 if ok else 1
     finally:
